@@ -315,7 +315,7 @@ pub fn log(k: EvKind) {
         if w.log.len() >= w.max_log {
             w.overflow = true;
             w.dropped += 1;
-            return w.dropped > 200_000;
+            return w.dropped > 4_000;
         }
         let t = tokio::time::Instant::now().saturating_duration_since(w.t0).as_micros() as u64;
         w.seq += 1;
@@ -328,7 +328,7 @@ pub fn log(k: EvKind) {
     // be stopped from inside: unwind it. The run is already marked inconclusive (history overflow).
     if runaway && task >= 0 && !std::thread::panicking() {
         try_with(|w| w.dropped = 0);
-        panic!("HARNESS-RUNAWAY: task {task} produced more than 200000 events beyond the history limit without finishing");
+        panic!("HARNESS-RUNAWAY: task {task} produced more than 4000 events beyond the history limit without finishing");
     }
 }
 
